@@ -38,7 +38,7 @@ func init() {
 		r = append(r, hrun{Harness: "vhC08New"})
 		for _, c := range caps {
 			for auto := 0; auto <= 1; auto++ {
-				r = append(r, hrun{Harness: "vhC08Put", Params: P("CAP", c, "AUTO", auto, "TOPICS", topics)})
+				r = append(r, hrun{Harness: "vhC08Put", Params: P("CAP", c, "AUTO", auto, "TOPICS", topics, "FIRSTS", 4+8*auto)})
 				r = append(r, hrun{Harness: "vhC08Replay", Params: P("CAP", c, "AUTO", auto, "TOPICS", topics), Covers: []string{"C08/Replay/newest-id", "C08/Replay/something-replayed", "C08/Replay/send-failure"}})
 			}
 		}
@@ -79,7 +79,7 @@ func init() {
 		ID: "C18",
 		Quick: append(each(P("CAP", 3, "AUTO", 0, "TOPICS", 1), "vhC08Put"), append(each(P("AUTO", 0, "SIZES", 3, "TOPICS", 1), "vhC09GC", "vhC09Put"), each(P("CAP", 2, "AUTO", 1, "TOPICS", 1), "vhC08Put")...)...),
 		Thorough: append(each(P("CAP", 5, "AUTO", 0, "TOPICS", 1), "vhC08Put"), append(each(P("AUTO", 0, "SIZES", 4, "TOPICS", 1), "vhC09GC", "vhC09Put"), each(P("AUTO", 1, "SIZES", 4, "TOPICS", 1), "vhC09GC", "vhC09Put")...)...),
-		Labels: []string{"C18/", "inv-dead-slots-are-zero", "holds-exactly-last-N", "drops-exactly-the-expired-prefix", "inv-"},
+		Labels: []string{"C18/", "inv-dead-slots-are-zero", "holds-exactly-last-N", "drops-exactly-the-expired-prefix", "inv-", "gc-interval-not-restarted", "collection-time-recorded", "appends-and-drops-no-unexpired"},
 		Bounds: map[string]string{
 			"quick":    "FiniteReplayer capacity 2-3, ValidReplayer buffer length in {0,4,8}: one Put/GC from every ring state; reachability decided on the executor's explicit heap (slices keep their whole backing array alive)",
 			"thorough": "FiniteReplayer capacity 5, ValidReplayer buffer length in {0,4,8,16} (all grow and shrink steps)",
@@ -89,7 +89,7 @@ func init() {
 	}
 	checks["C19"] = &propCheck{
 		ID: "C19",
-		Quick: append([]hrun{{Harness: "vhC19Clone", Params: P("K", 3, "S", 1), Covers: []string{"C19/Clone/cloned"}}}, append(each(P("CAP", 2, "AUTO", 1, "TOPICS", 1), "vhC08Put"), each(P("AUTO", 1, "SIZES", 2, "TOPICS", 1), "vhC09Put")...)...),
+		Quick: append([]hrun{{Harness: "vhC19Clone", Params: P("K", 3, "S", 1), Covers: []string{"C19/Clone/cloned"}}}, append(each(P("CAP", 2, "AUTO", 1, "TOPICS", 1, "FIRSTS", 12), "vhC08Put"), each(P("AUTO", 1, "SIZES", 2, "TOPICS", 1, "FIRSTS", 4), "vhC09Put")...)...),
 		Thorough: append([]hrun{{Harness: "vhC19Clone", Params: P("K", 3, "S", 2), Covers: []string{"C19/Clone/cloned"}}, {Harness: "vhC19Clone", Params: P("K", 4, "S", 1), Covers: []string{"C19/Clone/cloned"}}}, append(each(P("CAP", 3, "AUTO", 1, "TOPICS", 1), "vhC08Put"), append(each(P("AUTO", 1, "SIZES", 3, "TOPICS", 1), "vhC09Put"), each(P("CAP", 3, "AUTO", 0, "TOPICS", 1), "vhC08Put")...)...)...),
 		Labels: []string{"C19/", "caller-message-unchanged", "auto-id-set-on-a-copy", "copy-carries-same-content", "auto-id-next-decimal-on-copy", "auto-id-is-next-decimal"},
 		Bounds: map[string]string{
@@ -187,11 +187,15 @@ func init() {
 		}
 		// the limit given by the caller's buffer alone: Connection.Buffer(buf, 0)
 		r = append(r, hrun{Harness: "vhC20Conn", Params: P("L", 0, "N", n-1, "SEG", seg, "BUFMAX", 3), Covers: []string{"C20/Conn/too-long", "C20/Conn/all-fit"}})
+		// the limit still holds on a later connection of the same Connection (reconnect)
+		r = append(r, hrun{Harness: "vhC20Conn", Params: P("L", 3, "N", n-1, "SEG", seg, "BUFMAX", 2, "TWICE", 1), Covers: []string{"C20/Conn/too-long", "C20/Conn/all-fit"}})
+		// values stay intact across buffer compaction/refill
+		r = append(r, hrun{Harness: "vhC01SmallBufRead", Params: P("L", 16)}, hrun{Harness: "vhC01SmallBufConn", Params: P("L", 16)})
 		return r
 	}
 	checks["C20"] = &propCheck{
 		ID: "C20", Quick: c20([]int{2, 3, 4}, 5, 1), Thorough: append(c20([]int{2, 3, 4, 5, 6}, 6, 1), c20([]int{7, 8}, 8, 0)...),
-		Labels: []string{"C20/", "panic:"},
+		Labels: []string{"C20/", "C01/SmallBuf", "panic:"},
 		Bounds: map[string]string{
 			"quick":    "limit L in {2,3,4} through ReadConfig.MaxEventSize and through Connection.Buffer(buf, L) with an initial buffer of every capacity 0..L+1 (or nil); every stream <=5 bytes (all byte values), every segmentation into read chunks; the real bufio.Scanner buffer growth/compaction logic runs with these small numbers",
 			"thorough": "L in {2..6} with streams <=6 bytes and all segmentations; L in {7,8} with streams <=8 bytes in one chunk",
@@ -210,6 +214,8 @@ func init() {
 			{Harness: "vhC01ReadTpl", Params: P("LINES", 1, "HOLE", 2), Covers: []string{"C01/ReadTpl/some-event"}},
 			{Harness: "vhC01ConnTpl", Params: P("LINES", 1, "HOLE", 2), Covers: []string{"C01/ConnTpl/some-event", "C01/ConnTpl/some-retry"}},
 			{Harness: "vhC01ReadTpl", Params: P("LINES", 2, "HOLE", 0), Covers: []string{"C01/ReadTpl/some-event"}},
+			{Harness: "vhC01SmallBufRead", Params: P("L", 16), Covers: []string{"C01/SmallBufRead/some-event"}},
+			{Harness: "vhC01SmallBufConn", Params: P("L", 16), Covers: []string{"C01/SmallBufConn/some-event"}},
 			{Harness: "vhC01ConnTpl", Params: P("LINES", 3, "HOLE", 0, "NAMES", 2, "PREFIXES", 1), Covers: []string{"C01/ConnTpl/some-event"}},
 		},
 		Thorough: []hrun{
@@ -224,7 +230,7 @@ func init() {
 		},
 		Labels: []string{"C01/", "panic:"},
 		Bounds: map[string]string{
-			"quick":    "every byte string <=4 bytes x every segmentation into read chunks x early stop after 0/1/2 events (Read) and x initial last-event-ID <=1 byte (Connection); every byte string <=7 (Read) / <=6 (Connection) bytes delivered in one chunk; templates: prefix in {none, BOM, LF BOM, CRLF BOM} + one line (name in {data,event,id,retry,'',dat,datas}, optional ':' / ': ', hole of <=2 symbolic bytes) + terminator in {LF,CR,CRLF,none} + tail in {none,LF,CRLF}; all two-line templates without holes; all three-line templates over {data,event} without holes",
+			"quick":    "every byte string <=4 bytes x every segmentation into read chunks x early stop after 0/1/2 events (Read) and x initial last-event-ID <=1 byte (Connection); every byte string <=7 (Read) / <=6 (Connection) bytes delivered in one chunk; templates: prefix in {none, BOM, LF BOM, CRLF BOM} + one line (name in {data,event,id,retry,'',dat,datas}, optional ':' / ': ', hole of <=2 symbolic bytes) + terminator in {LF,CR,CRLF,none} + tail in {none,LF,CRLF}; all two-line templates without holes; all three-line templates over {data,event} without holes; a 16-byte scanner buffer with streams id:<byte> event:<byte> + 1-2 data events in chunks of {1, half, all that fits} (buffer compaction and refill between events)",
 			"thorough": "all strings <=6 bytes x all segmentations (Read) / <=5 (Connection); <=9 / <=8 bytes in one chunk; EOF delivered together with the last bytes; two-line templates with 1-byte holes, one-line templates with 3-byte holes",
 		},
 		Outside: []string{"streams longer than the bound that match no template", "events straddling the real 4 KiB / 64 KiB scanner buffers (C20 decides the same scanner logic at small limits)", "decoding of invalid UTF-8 to U+FFFD (oracle and go-sse are byte-transparent)", "retry values with more digits than the bound"},
@@ -237,7 +243,8 @@ func init() {
 			{Harness: "vhC11ConnRead", Params: P("N", 4, "SEG", 1), Covers: []string{"C11/ConnRead/failing-reader"}},
 			{Harness: "vhC11ConnRead", Params: P("N", 6, "SEG", 0), Covers: []string{"C11/ConnRead/failing-reader"}},
 			{Harness: "vhC11Connect", Params: P("A", 2, "CANCEL", 1, "BODYKINDS", 1, "TPLMASK", 7), Covers: []string{"C11/Connect/cancelled", "C11/Connect/retries-exhausted", "C11/Connect/validator-rejected"}, NoNative: true},
-			{Harness: "vhC11Connect", Params: P("A", 3, "CANCEL", 0, "BODYKINDS", 1, "TPLMASK", 1, "SENTINEL", 1), Covers: []string{"C11/Connect/retries-exhausted"}},
+			{Harness: "vhC11Connect", Params: P("A", 3, "CANCEL", 0, "BODYKINDS", 1, "TPLMASK", 1, "SENTINEL", 1, "TEMPVERDICT", 1), Covers: []string{"C11/Connect/retries-exhausted"}},
+			{Harness: "vhC11Connect", Params: P("A", 4, "CANCEL", 0, "BODYKINDS", 1, "TPLMASK", 1), Covers: []string{"C11/Connect/retries-exhausted"}},
 			{Harness: "vhC11Connect", Params: P("A", 3, "CANCEL", 0, "BODYKINDS", 5, "TPLMASK", 9), Covers: []string{"C11/Connect/retries-exhausted", "C11/Connect/body-reset-failed"}},
 		},
 		Thorough: []hrun{
@@ -261,6 +268,7 @@ func init() {
 		Quick: []hrun{
 			{Harness: "vhC10Connect", Params: P("A", 3, "CANCEL", 0, "BODYKINDS", 1, "TPLMASK", 39), Covers: []string{"C10/Connect/header-sent"}},
 			{Harness: "vhC10Connect", Params: P("A", 3, "CANCEL", 0, "BODYKINDS", 5, "TPLMASK", 1), Covers: []string{"C10/Connect/getbody-failed"}},
+			{Harness: "vhC10Connect", Params: P("A", 3, "CANCEL", 0, "BODYKINDS", 5, "TPLMASK", 2, "MRCHOICES", 3), Covers: []string{"C10/Connect/header-sent"}},
 		},
 		Thorough: []hrun{
 			{Harness: "vhC10Connect", Params: P("A", 4, "CANCEL", 0, "BODYKINDS", 1, "TPLMASK", 39), Covers: []string{"C10/Connect/header-sent"}},
@@ -312,9 +320,11 @@ func init() {
 			joe("vhC06Joe", "NSUB", 1, "NMSG", 1, "NSHUT", 0, "CANCEL", 1, "TOPICS", 0, "REPLAYER", 2),
 			joe("vhC06Joe", "NSUB", 1, "NMSG", 3, "NSHUT", 0, "CANCEL", 0, "TOPICS", 0),
 			joe("vhC06Joe", "NSUB", 2, "NMSG", 2, "NSHUT", 0, "CANCEL", 0, "TOPICS", 0),
+			joe("vhC06Joe", "NSUB", 2, "NMSG", 1, "NSHUT", 0, "CANCEL", 0, "TOPICS", 1),
+			joe("vhC06Joe", "NSUB", 2, "NMSG", 1, "NSHUT", 0, "CANCEL", 1, "TOPICS", 0),
 		},
 		Thorough: []hrun{
-			joe("vhC06Joe", "NSUB", 2, "NMSG", 1, "NSHUT", 0, "CANCEL", 1, "TOPICS", 0),
+			joe("vhC06Joe", "NSUB", 2, "NMSG", 2, "NSHUT", 1, "CANCEL", 1, "TOPICS", 0),
 			joe("vhC06Joe", "NSUB", 1, "NMSG", 2, "NSHUT", 1, "CANCEL", 1, "TOPICS", 0),
 			joe("vhC06Joe", "NSUB", 2, "NMSG", 2, "NSHUT", 0, "CANCEL", 0, "TOPICS", 0),
 		},
@@ -326,11 +336,14 @@ func init() {
 		Outside: []string{"more goroutines / messages than the configuration", "Go's memory model below channel operations (sequential consistency of channel and Once operations is assumed; Joe shares no plain variables between goroutines)", "scheduler fairness and timing; GOMAXPROCS as such (every interleaving of visible operations subsumes it for race-free code)"},
 		Oracle:  "monitors in harness/sse_joe.go: no unrecovered panic in any goroutine; no Send/Flush on a subscriber after its Subscribe returned; Subscribe returns its own first Send/Flush/replay error, nil only after cancellation or shutdown was requested, ErrProviderClosed only after shutdown",
 	}
+	for i := range checks["C06"].Quick {
+		_ = i
+	}
 	checks["C07"] = &propCheck{
 		ID: "C07",
 		Quick: []hrun{
 			joe("vhC07Joe", "NSUB", 1, "NMSG", 1, "NSHUT", 1, "CANCEL", 1, "TOPICS", 0),
-			joe("vhC07Joe", "NSUB", 1, "NMSG", 1, "NSHUT", 2, "CANCEL", 0, "TOPICS", 0),
+			joe("vhC07Joe", "NSUB", 1, "NMSG", 1, "NSHUT", 2, "CANCEL", 0, "TOPICS", 0, "SHUTCTX", 1),
 			joe("vhC07Joe", "NSUB", 2, "NMSG", 1, "NSHUT", 1, "CANCEL", 0, "TOPICS", 0, "FAULTS", 1),
 			joe("vhC07Joe", "NSUB", 2, "NMSG", 0, "NSHUT", 0, "CANCEL", 1, "TOPICS", 0),
 			joe("vhC07Joe", "NSUB", 1, "NMSG", 3, "NSHUT", 1, "CANCEL", 0, "TOPICS", 0, "FAULTS", 1),
@@ -345,7 +358,7 @@ func init() {
 			"quick":    "every interleaving of visible operations of: {1 subscriber, 1 message, cancel, 1 Shutdown}, {1 subscriber, 1 message, 2 concurrent Shutdowns}, {2 subscribers, 1 message, 1 Shutdown, failing Send/Flush}, {2 cancellable subscribers, no Shutdown}, {1 subscriber, 3 messages, 1 Shutdown, failing Send/Flush}; every caller may be the one that runs Joe's lazy initialisation",
 			"thorough": "{2 subscribers, 1 message, 2 Shutdowns}, {1 subscriber, 2 messages, cancel, Shutdown, failures}, {2 cancellable subscribers, 1 message}",
 		},
-		Outside: []string{"Shutdown contexts that expire (the context passed to Shutdown never ends here)", "subscribers whose Send blocks (excluded by the property)", "liveness under an unfair scheduler with unbounded publishers"},
+		Outside: []string{"Shutdown contexts that expire while Shutdown waits (a context that is already done when Shutdown is called is covered)", "subscribers whose Send blocks (excluded by the property)", "liveness under an unfair scheduler with unbounded publishers"},
 		Oracle:  "at quiescence (no transition enabled): with a Shutdown every goroutine has finished - every Subscribe and Publish returned (nil, own error, replayer error or ErrProviderClosed), exactly one Shutdown returned nil and the others ErrProviderClosed, Joe's goroutine exited (closed channel closed); without Shutdown at most Joe's own idle goroutine remains once every subscriber was cancelled; no crash",
 	}
 	checks["C03"] = &propCheck{
@@ -355,6 +368,9 @@ func init() {
 			joe("vhC03Joe", "NSUB", 1, "NMSG", 2, "NSHUT", 0, "CANCEL", 1, "TOPICS", 0, "FAULTS", 1),
 			joe("vhC03Joe", "NSUB", 2, "NMSG", 1, "NSHUT", 1, "CANCEL", 0, "TOPICS", 0),
 			joe("vhC03Joe", "NSUB", 2, "NMSG", 1, "NSHUT", 0, "CANCEL", 0, "TOPICS", 1, "FAULTS", 1),
+			joe("vhC03Joe", "NSUB", 2, "NMSG", 1, "NSHUT", 0, "CANCEL", 1, "TOPICS", 0),
+			joe("vhC03Joe", "NSUB", 1, "NMSG", 1, "NSHUT", 0, "CANCEL", 0, "TOPICS", 1, "NTOPICS", 2),
+			joe("vhC03Joe", "NSUB", 2, "NMSG", 2, "NSHUT", 0, "CANCEL", 0, "TOPICS", 0, "FAULTS", 1),
 		},
 		Thorough: []hrun{
 			joe("vhC03Joe", "NSUB", 2, "NMSG", 2, "NSHUT", 0, "CANCEL", 0, "TOPICS", 0, "FAULTS", 1),
@@ -370,12 +386,18 @@ func init() {
 		Outside: []string{"more goroutines / messages than the configuration; several publishers (one publisher thread: program order)", "Joe with the real replayers (their contract is decided in C08/C09)"},
 		Oracle:  "per (subscriber, message): at most one Send; a Send only if the topics intersect (independent intersection) and in Joe's Put order; exactly one Send if the subscriber was registered before the message was accepted, matches, had not failed and had not been asked to leave; every successful Send followed by that subscriber's Flush before Joe does anything else; publisher program order kept",
 	}
+	for _, runs := range [][]hrun{checks["C03"].Quick, checks["C03"].Thorough} {
+		for i := range runs {
+			runs[i].Covers = []string{"C03/delivery-obligation"}
+		}
+	}
 	checks["C17"] = &propCheck{
 		ID: "C17",
 		Quick: []hrun{
 			joe("vhC17Joe", "NSUB", 2, "NMSG", 1, "NSHUT", 0, "CANCEL", 0, "TOPICS", 0, "REPLAYER", 1),
 			joe("vhC17Joe", "NSUB", 1, "NMSG", 2, "NSHUT", 0, "CANCEL", 0, "TOPICS", 0, "REPLAYER", 2),
 			joe("vhC17Joe", "NSUB", 2, "NMSG", 2, "NSHUT", 0, "CANCEL", 0, "TOPICS", 1, "REPLAYER", 1),
+			joe("vhC17Joe", "NSUB", 2, "NMSG", 1, "NSHUT", 0, "CANCEL", 1, "TOPICS", 0, "REPLAYER", 1),
 		},
 		Thorough: []hrun{
 			joe("vhC17Joe", "NSUB", 3, "NMSG", 1, "NSHUT", 0, "CANCEL", 0, "TOPICS", 1, "REPLAYER", 1),
@@ -400,6 +422,8 @@ func init() {
 			{Harness: "vhC08Replay", Params: P("CAP", 2, "AUTO", 0, "TOPICS", 1)},
 			{Harness: "vhC08Replay", Params: P("CAP", 3, "AUTO", 1, "TOPICS", 1)},
 			{Harness: "vhC09Replay", Params: P("AUTO", 0, "SIZES", 2, "TOPICS", 1, "MAXCOUNT", 4)},
+			{Harness: "vhC09Put", Params: P("AUTO", 0, "SIZES", 2, "TOPICS", 1)},
+			{Harness: "vhC09GC", Params: P("AUTO", 1, "SIZES", 3, "TOPICS", 1)},
 		},
 		Thorough: []hrun{
 			joe("vhC04Joe", "NSUB", 1, "NMSG", 3, "TOPICS", 0),
@@ -425,6 +449,9 @@ func init() {
 			{Harness: "vhC05", Params: P("MSGS", 2, "ATTEMPTS", 2, "AUTO", 1, "N", 1), Covers: []string{"C05/all-received", "C05/cut-mid-stream"}},
 			{Harness: "vhC05", Params: P("MSGS", 2, "ATTEMPTS", 2, "AUTO", 0, "N", 1), Covers: []string{"C05/all-received", "C05/cut-mid-stream"}},
 			{Harness: "vhC05", Params: P("MSGS", 2, "ATTEMPTS", 2, "AUTO", 0, "N", 1, "VALID", 1), Covers: []string{"C05/all-received", "C05/cut-mid-stream"}},
+			{Harness: "vhC05", Params: P("MSGS", 2, "ATTEMPTS", 2, "AUTO", 1, "N", 0, "SMALLBUF", 24), Covers: []string{"C05/all-received", "C05/cut-mid-stream"}},
+			// "the server process survives every such cut": Joe under cancellation while publishing
+			joe("vhC06Joe", "NSUB", 1, "NMSG", 2, "NSHUT", 0, "CANCEL", 1, "TOPICS", 0),
 		},
 		Thorough: []hrun{
 			{Harness: "vhC05", Params: P("MSGS", 2, "ATTEMPTS", 2, "AUTO", 0, "N", 2), Covers: []string{"C05/all-received"}},
@@ -432,7 +459,7 @@ func init() {
 			{Harness: "vhC05", Params: P("MSGS", 2, "ATTEMPTS", 3, "AUTO", 1, "N", 0), Covers: []string{"C05/all-received"}},
 			{Harness: "vhC05", Params: P("MSGS", 2, "ATTEMPTS", 2, "AUTO", 1, "N", 1, "VALID", 1), Covers: []string{"C05/all-received"}},
 		},
-		Labels: []string{"C05/", "panic:"},
+		Labels: []string{"C05/", "C06/", "panic:"},
 		Bounds: map[string]string{
 			"quick":    "2 messages (symbolic data <=1 byte incl. line breaks, optional symbolic type <=1 byte), every placement of their publication on the timeline {client away, while attempt 1 is connected, away, while attempt 2 is connected}, 2 connection attempts, the first cut at EVERY byte offset of the response body abruptly (read error) or, at message boundaries, by the handler returning; FiniteReplayer with automatic and manual IDs and ValidReplayer with manual IDs, capacity >= number of messages",
 			"thorough": "data <=2 bytes; 3 messages; 3 attempts (2 cuts)",
